@@ -190,7 +190,10 @@ class Arbiter:
         signal.signal(signal.SIGCHLD, self.handle_chld)
 
     def signal(self, sig, frame):
-        if len(self.SIG_QUEUE) < 5:
+        # the cap protects against a flood of signals; the ones that stop
+        # the server must never be lost to it
+        if len(self.SIG_QUEUE) < 5 or sig in (signal.SIGTERM, signal.SIGQUIT,
+                                              signal.SIGINT):
             self.SIG_QUEUE.append(sig)
             self.wakeup()
 
